@@ -72,6 +72,15 @@ def ogg_empty_foreign_pages(d):
         for pg in pages[:5]:
             yield "ogg-empty-foreign-page@%d flags=%d" % (pg["off"], flags), d[:pg["off"]] + page + d[pg["off"]:]
         yield "ogg-empty-foreign-page@end flags=%d" % flags, d + page
+        # multiplexed: the foreign stream begins first (its BOS page with a packet), then its empty page, then this stream
+        pkt = b"\x80foreign-codec-header"
+        bh = b"OggS\x00\x02" + struct.pack("<qIII", 0, 0x5EEDF00D, 0, 0) + b"\x01" + bytes([len(pkt)]) + pkt
+        bos = bh[:22] + struct.pack("<I", W.ogg_crc(bh)) + bh[26:]
+        h2 = b"OggS\x00\x00" + struct.pack("<qIII", 0, 0x5EEDF00D, 1, 0) + b"\x00"
+        empty2 = h2[:22] + struct.pack("<I", W.ogg_crc(h2)) + h2[26:]
+        if flags == 0:
+            yield "ogg-foreign-bos+empty-page-first", bos + empty2 + d
+            yield "ogg-foreign-bos-first", bos + d
 
 
 def mp4_inputs(d):
